@@ -314,7 +314,9 @@ def run_cli_case(ctx, p):
                 recorded = [v for k, v in g.metadata.items() if k.startswith('error-')]
                 for tr in offenders:
                     c = '(%s)' % ' '.join(map(str, tr))
-                    if not any(v.startswith(c) for v in recorded):
+                    if not any(v.startswith(c) for v in recorded) and not ('::' in c and ('(' + c[1:]) in out):
+                        # (a constant containing '::' makes the error line ambiguous to read back as
+                        #  metadata; then the raw output line decides)
                         ctx.fail('cli:offending-triple-not-recorded',
                                  detail=dict(det, how=how, triple=tr, metadata=dict(g.metadata)))
                 if not has_error and recorded:
